@@ -177,6 +177,17 @@ def run_sequence(rng, n_ops):
         counts[op] = counts.get(op, 0) + 1
         ops.append(op)
 
+    held = []       # (operation, object, digest when it was returned): results the caller keeps WITHOUT touching them
+
+    def hand_back(r, name):
+        """The caller either overwrites what it was handed (hostile) or keeps it and looks at it again later: in the second
+        case it must still be what was returned, whatever the library has done in between."""
+        if rng.random() < 0.35:
+            held.append((name, r, digest(r)))
+            counts["result kept by the caller and re-read later"] = counts.get("result kept by the caller and re-read later", 0) + 1
+        else:
+            scribble(r)
+
     for step in range(n_ops):
         op = str(rng.choice(["set", "set", "update", "commit", "commit", "get_current", "get_current_all", "get_history_idx",
                              "get_history_flat", "get_history_all", "get_last", "to_dict", "results", "roundtrip_dict",
@@ -221,7 +232,7 @@ def run_sequence(rng, n_ops):
                 r = sm.get_current(k)
                 if aliases(r, sm):
                     bad.append(("alias-get_current", f"get_current('{k}') shares memory with internal state"))
-                scribble(r)
+                hand_back(r, f"get_current('{k}')")
                 note(op)
             elif op == "get_current_all":
                 r = sm.get_current()
@@ -236,7 +247,7 @@ def run_sequence(rng, n_ops):
                     r = sm.get_history(k, index=int(rng.integers(L)))
                     if aliases(r, sm):
                         bad.append(("alias-get_history", f"get_history('{k}', index) shares memory with internal state"))
-                    scribble(r)
+                    hand_back(r, f"get_history('{k}', index)")
                     note(op)
             elif op in ("get_history_flat", "get_history_all"):
                 k = str(rng.choice(["u", "x", "logl", "blobs"] if op == "get_history_flat" else RefState.HIST))
@@ -267,14 +278,14 @@ def run_sequence(rng, n_ops):
                         bad.append(("history-content", f"get_history('{k}', flat={op == 'get_history_flat'}) differs from reference"))
                     if aliases(r, sm):
                         bad.append(("alias-get_history", f"get_history('{k}', flat/all) shares memory with internal state"))
-                    scribble(r)
+                    hand_back(r, f"get_history('{k}', flat/all)")
                     note(op)
             elif op == "get_last":
                 k = str(rng.choice(RefState.HIST))
                 r = sm.get_last_history(k)
                 if aliases(r, sm):
                     bad.append(("alias-get_last_history", f"get_last_history('{k}') shares memory with internal state"))
-                scribble(r)
+                hand_back(r, f"get_last_history('{k}')")
                 note(op)
             elif op == "to_dict":
                 r = sm.to_dict()
@@ -343,10 +354,20 @@ def run_sequence(rng, n_ops):
                 note(op)
             elif op == "logw":
                 if len(ref.hist["beta"]) and len(ref.hist["logl"]) == len(ref.hist["beta"]) == len(ref.hist["logz"]):
-                    lw, lz = sm.compute_logw_and_logz(float(rng.random()))
+                    nrm = bool(rng.random() < 0.5)
+                    lw, lz = sm.compute_logw_and_logz(float(rng.random()), normalize=nrm)
                     if aliases(lw, sm):
                         bad.append(("alias-logw", "compute_logw_and_logz returns an array aliasing internal state"))
-                    scribble(lw)
+                    # a second request at another temperature while the caller still holds the first answer
+                    dg1 = digest(lw)
+                    lw2, lz2 = sm.compute_logw_and_logz(float(rng.random()), normalize=nrm)
+                    if digest(lw) != dg1:
+                        bad.append(("returned-array-changed-later", f"the log-weights returned by compute_logw_and_logz(normalize={nrm}) changed when the manager "
+                                    "answered the next request"))
+                    if np.shares_memory(lw, lw2):
+                        bad.append(("alias-logw", "two calls of compute_logw_and_logz return arrays that share memory"))
+                    hand_back(lw, f"compute_logw_and_logz(normalize={nrm})")
+                    scribble(lw2)
                     note(op)
         except Exception:
             bad.append((f"exception-{op}", f"operation {op} raised: " + fmt_exc()[-400:]))
@@ -354,6 +375,11 @@ def run_sequence(rng, n_ops):
         msg = compare(sm, ref)
         if msg:
             bad.append((f"diverged-after-{op}", f"after op #{step} ({op}; previous ops {ops[-6:]}): {msg}"))
+            break
+        changed = [nm for nm, obj, dg in held if digest(obj) != dg]
+        if changed:
+            bad.append(("returned-array-changed-later", f"what {changed[0]} returned changed while the caller merely kept it (after op #{step}: {op}): it shares "
+                        f"memory with something the library writes to"))
             break
     return bad, counts
 
